@@ -316,7 +316,7 @@ Definition opt_bytes_is (o : option bytes) (x : bytes) : bool :=
      map, or to a pointer to a container; a pointer to Media;
    - Edge (no end-container event), and everything held by an interface (Node included): the
      untyped builder gives other Go types back (covered by the correspondence only);
-   - big.Float (library conversions);  float32 NaN scalars (their widening is not followed here);
+   - big.Float (library conversions);
    - struct types with embedded fields or order= tags (the marshaler's field sort is not followed
      here);
    and required: an omitted field holds a value [veq] to the zero value of its type; the emitted
@@ -325,8 +325,7 @@ Definition opt_bytes_is (o : option bytes) (x : bytes) : bool :=
    [time_conv] are the library); sizes below 2^61 bytes. *)
 Fixpoint sup (t : gtype) (v : gval) {struct v} : bool :=
   match v with
-  | VBool _ | VInt _ | VUint _ | VF64 _ => true
-  | VF32 w => negb (FloatBits.f32_is_nan w)
+  | VBool _ | VInt _ | VUint _ | VF32 _ | VF64 _ => true
   | VString s => blen s <? 2 ^ 61
   | VNum _ k es =>
       (match t with TNumSlice k' asg => asg || akind_eqb k' AU8 | TNumArr _ _ => true | _ => false end)
@@ -656,7 +655,7 @@ Proof.
   destruct (FloatBits.f32_mant w =? 0); [reflexivity | discriminate H].
 Qed.
 
-Lemma sl_f32 w : w < 2 ^ 32 -> FloatBits.f32_is_nan w = false -> SL TF32 (VF32 w).
+Lemma sl_f32_num w : w < 2 ^ 32 -> FloatBits.f32_is_nan w = false -> SL TF32 (VF32 w).
 Proof.
   intros Hw Hn. set (b := FloatBits.f32_widen w).
   assert (Hb : b < 2 ^ 64) by (apply f32_widen_lt; exact Hw).
@@ -671,6 +670,50 @@ Proof.
   destruct (f64_sc_not_null b) as [A B].
   split; [split; [intro E; contradiction | intro; discriminate]
          | split; [intros (mt & d & E); exfalso; exact (B mt d E) | intro; discriminate]].
+Qed.
+
+(* the widening of a float32 NaN is a float64 NaN *)
+Lemma widen32_nan w :
+  w < 2 ^ 32 -> FloatBits.f32_is_nan w = true ->
+  FloatBits.f64_is_inf (widen32 w) = false /\ FloatBits.f64_is_nan (widen32 w) = true.
+Proof.
+  intros Hw Hn. destruct (f32_decompose w Hw) as (Hs & He & Hm & _).
+  unfold FloatBits.f32_is_nan in Hn. apply andb_true_iff in Hn as [H1 H2].
+  apply N.eqb_eq in H1. apply negb_true_iff in H2. apply N.eqb_neq in H2.
+  unfold widen32. change (w32_expo w) with (FloatBits.f32_expo w). change (w32_mant w) with (FloatBits.f32_mant w).
+  change (w32_sign w) with (FloatBits.f32_sign w).
+  rewrite H1. change (255 =? 255) with true. cbv iota.
+  replace (FloatBits.f32_mant w =? 0) with false by (symmetry; apply N.eqb_neq; exact H2).
+  set (M := N.lor (FloatBits.f32_mant w * p29) p51).
+  assert (HM0 : M <> 0).
+  { unfold M. intro E. apply N.lor_eq_0_iff in E as [_ E]. discriminate E. }
+  assert (HM : M < FloatBits.p2_52).
+  { change FloatBits.p2_52 with (2 ^ 52). apply N.log2_lt_pow2; [lia|]. unfold M. rewrite N.log2_lor.
+    change p51 with (2 ^ 51). rewrite N.log2_pow2 by lia. change p29 with (2 ^ 29).
+    rewrite N.log2_mul_pow2 by lia.
+    assert (N.log2 (FloatBits.f32_mant w) < 23) by (apply N.log2_lt_pow2; [lia | exact Hm]). lia. }
+  change (mk64 (FloatBits.f32_sign w) 2047 M) with (FloatBits.f64_make (FloatBits.f32_sign w) 2047 M).
+  destruct (f64_fields (FloatBits.f32_sign w) 2047 M Hs ltac:(lia) HM) as (_ & E1 & E2).
+  unfold FloatBits.f64_is_inf, FloatBits.f64_is_nan. rewrite E1, E2.
+  replace (M =? 0) with false by (symmetry; apply N.eqb_neq; exact HM0). split; reflexivity.
+Qed.
+
+Lemma sl_f32_nan w : w < 2 ^ 32 -> FloatBits.f32_is_nan w = true -> SL TF32 (VF32 w).
+Proof.
+  intros Hw Hn. destruct (widen32_nan w Hw Hn) as [Hi Hnan].
+  set (s := BFloat (if negb (FloatBits.f64_quiet_bit (widen32 w)) then bsignaling_nan_bits else bquiet_nan_bits)).
+  exists s, (VF32 nan32).
+  split.
+  { apply (scalar_like_single _ (ENan (negb (FloatBits.f64_quiet_bit (widen32 w))))); [| reflexivity | exact I].
+    unfold bevs. cbn [plain walk fst flat_map cbe_form app]. unfold cbe_float_form. rewrite Hi, Hnan. reflexivity. }
+  split; [unfold s; destruct (negb (FloatBits.f64_quiet_bit (widen32 w))); reflexivity|].
+  split; [cbn [veq]; unfold f32_veq; rewrite Hn; reflexivity|].
+  unfold s. split; [split; [discriminate | intro; discriminate] | split; [intros (? & ? & ?); discriminate | intro; discriminate]].
+Qed.
+
+Lemma sl_f32 w : w < 2 ^ 32 -> SL TF32 (VF32 w).
+Proof.
+  intro Hw. destruct (FloatBits.f32_is_nan w) eqn:Hn; [apply sl_f32_nan | apply sl_f32_num]; assumption.
 Qed.
 
 (* arrays in one event or in chunks *)
@@ -1789,7 +1832,7 @@ Proof.
   - (* int *) intros z t Ht Hs. left. split; [reflexivity|]. destruct t; try discriminate Ht. apply sl_int. exact Ht.
   - (* uint *) intros n t Ht Hs. left. split; [reflexivity|]. destruct t; try discriminate Ht. apply sl_uint. exact Ht.
   - (* float32 *) intros w t Ht Hs. left. split; [reflexivity|]. destruct t; try discriminate Ht.
-    cbn [has_type] in Ht. cbn [sup] in Hs. apply N.ltb_lt in Ht. apply negb_true_iff in Hs. apply sl_f32; assumption.
+    cbn [has_type] in Ht. apply N.ltb_lt in Ht. apply sl_f32; assumption.
   - (* float64 *) intros b t Ht Hs. left. split; [reflexivity|]. destruct t; try discriminate Ht.
     cbn [has_type] in Ht. apply N.ltb_lt in Ht. apply sl_f64. exact Ht.
   - (* string *) intros s t Ht Hs. left. split; [reflexivity|]. destruct t; try discriminate Ht.
@@ -2033,3 +2076,136 @@ Lemma ex_rebuilt :
   exists v', build_typed idlib idlib (fun _ => None) (fun _ => None) default_bcfg ex_type (cbe_events (iterate icfg0 (Some ex_value))) = TOk v'
              /\ veq ex_value v' = true /\ (40 < length (cbe_events (iterate icfg0 (Some ex_value))))%nat.
 Proof. eexists. split; [vm_compute; reflexivity | split; [vm_compute; reflexivity | vm_compute; lia]]. Qed.
+
+(* ------------------------------------------------------------------ *)
+(** * 11. [cbe_form] is the CBE codec followed by the validator's rewriting
+
+   CbeProofs.norm_event: what the CBE decoder reports for an event the CBE encoder wrote (proved
+   there against Model/Cbe.v); RulesPassthrough.nn: what the validator hands on (C15). *)
+From CE Require Import Model.Cbe Proofs.CbeProofs Proofs.CbeRoundtrip Proofs.RulesPassthrough.
+
+(* the events of the marshaler covered here (times are outside Model/Cbe.v) *)
+Definition iter_event (e : event) : bool :=
+  match e with
+  | EBeginDoc | EEndDoc | EVersion _ | ENull | EBool _ | EPosInt _ | EInt _ | EBigInt (Some _)
+  | EFloat _ | EBigFloat (Some _) | EDecimal _ | EBigDecimal (Some _) | EUid _
+  | EList | EMap | ENode | EEdge | EEnd | EArray _ _ _ | EStringArray _ _ | EMedia _ _ => true
+  | _ => false
+  end.
+
+Lemma cbe_short_is_short t n : cbe_short t n = is_short t n.
+Proof.
+  unfold cbe_short, is_short. rewrite enc_small_header_spec.
+  destruct (N.ltb_spec cbeMaxSmallArrayLength n) as [L|L].
+  - replace (n <=? cbeMaxSmallArrayLength) with false by (symmetry; apply N.leb_gt; exact L). reflexivity.
+  - replace (n <=? cbeMaxSmallArrayLength) with true by (symmetry; apply N.leb_le; exact L). cbn [andb].
+    unfold has_short_form. destruct (array_info t) as [[[a b] c]|]; [|reflexivity]. destruct b; reflexivity.
+Qed.
+
+Lemma nil_len0 (d : bytes) : (Cbe.len d =? 0) = is_nil d.
+Proof. destruct d; [reflexivity|]. unfold Cbe.len. cbn [length is_nil]. apply N.eqb_neq. lia. Qed.
+
+Lemma array_form_norm t n d : cbe_array_form t n d = map nn (array_norm t (whole_chunks n d)).
+Proof.
+  unfold cbe_array_form, array_norm, whole_chunks. rewrite cbe_short_is_short.
+  destruct (is_short t n); [reflexivity|]. cbn [chunk_events map nn]. rewrite nil_len0, app_nil_r.
+  destruct (is_nil d); reflexivity.
+Qed.
+
+Lemma float_form_norm b : cbe_float_form b = nn (norm_float b).
+Proof.
+  unfold cbe_float_form, norm_float.
+  destruct (FloatBits.f64_is_inf b); [reflexivity|].
+  destruct (FloatBits.f64_is_nan b) eqn:Hn; [destruct (FloatBits.f64_quiet_bit b); reflexivity|].
+  destruct (FloatBits.f64_is_zero b); [destruct (FloatBits.f64_sign b =? 1); reflexivity|].
+  cbn [nn]. rewrite ev_f64_is_nan, Hn. reflexivity.
+Qed.
+
+Lemma int_form_norm neg m : cbe_int_form neg m = nn (norm_signed neg m).
+Proof.
+  unfold cbe_int_form, norm_signed, signed_z. change Rules.two64 with Uleb.two64.
+  destruct ((m <=? 100) && negb (neg && (m =? 0))); [reflexivity|].
+  destruct (m <? two64); [destruct neg; reflexivity | reflexivity].
+Qed.
+
+Lemma decimal_form_norm d : cbe_decimal_form d = nn (norm_decimal d).
+Proof.
+  destruct d as [neg c e|neg| |]; cbn [cbe_decimal_form norm_decimal]; try reflexivity.
+  destruct (c =? 0); [destruct neg; reflexivity|]. unfold norm_decimal_fin.
+  change Cbe.two63 with p63. destruct (p63 <=? c); reflexivity.
+Qed.
+
+Lemma cbe_form_norm e : iter_event e = true -> cbe_form e = map nn (norm_event e).
+Proof.
+  destruct e; cbn [iter_event]; intro H; try discriminate H; try reflexivity.
+  - (* bool *) destruct b; reflexivity.
+  - (* positive int *) cbn [cbe_form norm_event map]. rewrite int_form_norm. reflexivity.
+  - (* int *) cbn [cbe_form norm_event map]. rewrite int_form_norm. reflexivity.
+  - (* big int *) destruct v; [|discriminate H]. cbn [cbe_form norm_event map]. rewrite int_form_norm. reflexivity.
+  - (* float *) cbn [cbe_form norm_event map]. rewrite float_form_norm. reflexivity.
+  - (* big float *)
+    destruct v as [[neg mant ex prec|neg]|]; [| reflexivity | discriminate H].
+    cbn [cbe_form norm_event]. destruct (bigfloat_to_f64 neg mant ex); [|reflexivity].
+    cbn [map]. rewrite float_form_norm. reflexivity.
+  - (* decimal *) cbn [cbe_form norm_event map]. rewrite decimal_form_norm. reflexivity.
+  - (* big decimal *) destruct v; [|discriminate H]. cbn [cbe_form norm_event map]. rewrite decimal_form_norm. reflexivity.
+  - (* array *) apply array_form_norm.
+  - (* string-like array *) apply array_form_norm.
+  - (* media *)
+    cbn [cbe_form norm_event whole_chunks chunk_events map nn]. rewrite nil_len0, app_nil_r.
+    destruct (is_nil data); reflexivity.
+Qed.
+
+Lemma cbe_events_norm es : forallb iter_event es = true -> cbe_events es = map nn (flat_map norm_event es).
+Proof.
+  induction es as [|e es IH]; [reflexivity|]. cbn [forallb]. intro H. apply andb_true_iff in H as [H1 H2].
+  unfold cbe_events in *. cbn [flat_map]. rewrite map_app, (cbe_form_norm e H1), (IH H2). reflexivity.
+Qed.
+
+Lemma simple_body body : Forall c01_simple body -> c01_body body (flat_map norm_event body).
+Proof.
+  induction 1 as [|e body He _ IH]; [apply cb_nil|]. cbn [flat_map].
+  apply (cb_app [e] (norm_event e) body (flat_map norm_event body)); [apply cu_simple; exact He | exact IH].
+Qed.
+
+(* The round trip stated on the codec model itself: the document the CBE encoder writes for the
+   marshaler's events decodes (Model/Cbe.v) to events which, passed through the validator's
+   rewriting, make the builder return an equal value.  [c01_simpleb]: the events lie in the
+   fragment on which CbeRoundtrip proves what the decoder reports (no times). *)
+Theorem marshal_unmarshal_codec :
+  forall (url_conv time_conv : bytes -> option bytes) (dec_bigfloat bigdec_bigfloat : dfloat -> option bigfloat)
+         (cfg : bcfg) (ic : icfg) (dc : dcfg) (t : gtype) (v : gval) (doc : bytes),
+    c_records ic = [] -> c_recursion ic = false ->
+    has_type t v = true -> sup url_conv time_conv cfg ic t v = true ->
+    forallb c01_simpleb (plain ic v) = true -> forallb iter_event (plain ic v) = true ->
+    cbe_encode (iterate ic (Some v)) = Some doc -> Cbe.len doc <= max_doc_size dc ->
+    exists es v',
+      cbe_decode dc doc = (es, DOk) /\
+      build_typed url_conv time_conv dec_bigfloat bigdec_bigfloat cfg t (map nn es) = TOk v' /\ veq v v' = true.
+Proof.
+  intros uc tc db bb cfg ic dc t v doc Hrec Hrcs Ht Hs Hsimple Hiter Henc Hlen.
+  assert (Hit : iterate ic (Some v) = document 0 (plain ic v)).
+  { unfold iterate, iterate_outcome, value_outcome, rectypes_events, document. rewrite Hrcs, Hrec. reflexivity. }
+  assert (Hbody : c01_body (plain ic v) (flat_map norm_event (plain ic v))).
+  { apply simple_body. rewrite Forall_forall. rewrite forallb_forall in Hsimple. intros e He. apply c01_simpleb_sound. apply Hsimple. exact He. }
+  rewrite Hit in Henc.
+  destruct (c01_den_roundtrip dc (plain ic v) _ doc Hbody Henc Hlen) as [Hdec _].
+  destruct (marshal_unmarshal uc tc db bb cfg ic Hrec t v Hrcs Ht Hs) as (v' & Hb & Hv).
+  exists (document 0 (flat_map norm_event (plain ic v))), v'. split; [exact Hdec|]. split; [|exact Hv].
+  rewrite <- Hb. f_equal. rewrite Hit. unfold document.
+  cbn [map nn]. rewrite map_app. cbn [map nn].
+  unfold cbe_events. cbn [flat_map cbe_form app]. rewrite flat_map_app. cbn [flat_map cbe_form app].
+  fold (cbe_events (plain ic v)). rewrite (cbe_events_norm _ Hiter). reflexivity.
+Qed.
+
+(* the example value without its time field lies in that fragment too *)
+Definition ex_type2 : gtype := match ex_type with TStruct s fs => TStruct s (firstn 8 fs ++ skipn 9 fs) | x => x end.
+Definition ex_value2 : gval := match ex_value with VStruct s fs => VStruct s (firstn 8 fs ++ skipn 9 fs) | x => x end.
+Lemma ex2_covered :
+  has_type ex_type2 ex_value2 = true /\ sup idlib idlib default_bcfg icfg0 ex_type2 ex_value2 = true /\
+  forallb c01_simpleb (plain icfg0 ex_value2) = true /\ forallb iter_event (plain icfg0 ex_value2) = true /\
+  exists doc, cbe_encode (iterate icfg0 (Some ex_value2)) = Some doc /\ Cbe.len doc <= max_doc_size default_dcfg.
+Proof.
+  split; [vm_compute; reflexivity|]. split; [vm_compute; reflexivity|]. split; [vm_compute; reflexivity|].
+  split; [vm_compute; reflexivity|]. eexists. split; [vm_compute; reflexivity | vm_compute; discriminate].
+Qed.
